@@ -134,7 +134,11 @@ namespace occa {
     }
 
     array clone() const {
-      return emptyOr(memory_.clone());
+      if (!length()) {
+        // A zero-length slice is an initialized handle without bytes to clone
+        return emptyOr(occa::memory());
+      }
+      return array(memory_.clone());
     }
 
     void copyFrom(const T *src,
